@@ -316,6 +316,61 @@ func (c *Ctx) analyseOption(fn *ssa.Function) *optInfo {
 		}
 		return false
 	}
+	// every setting the option stores is stored on every success path that stores any of them: a second field that is
+	// only assigned under a condition on the value (e.g. "only when non-empty") keeps what an earlier option left
+	// there -- the later option does not win for that field
+	for _, s1 := range storeInstrs {
+		st1, ok := s1.(*ssa.Store)
+		if !ok {
+			continue
+		}
+		fa1, ok := st1.Addr.(*ssa.FieldAddr)
+		if !ok {
+			continue
+		}
+		for _, s2 := range storeInstrs {
+			st2, ok := s2.(*ssa.Store)
+			if !ok || s2 == s1 {
+				continue
+			}
+			fa2, ok := st2.Addr.(*ssa.FieldAddr)
+			if !ok || fa2.X != fa1.X || fa2.Field == fa1.Field {
+				continue
+			}
+			isF2 := func(in ssa.Instruction) bool {
+				if st, ok := in.(*ssa.Store); ok {
+					if fa, ok := st.Addr.(*ssa.FieldAddr); ok && fa.X == fa2.X && fa.Field == fa2.Field {
+						return true
+					}
+				}
+				return false
+			}
+			if dominatesInstr(s2, s1) {
+				continue // F2 already stored before F1 on this path
+			}
+			rr := reachFrom(clos, s1, isF2, nil)
+			for in := range rr.visited {
+				ret, ok := in.(*ssa.Return)
+				if !ok || len(ret.Results) != 1 {
+					continue
+				}
+				for _, cl := range returnErrClasses(ret.Results[0], 0) {
+					if cl.isNil && retEdgeReachable(rr, in, ret.Results[0], cl) {
+						msg := fmt.Sprintf("O1: a success path stores %s but not %s (%s): for that field an earlier option's value survives, the later option does not win", oi.storeName(s1), oi.storeName(s2), c.Pos(ret.Pos()))
+						dup := false
+						for _, p := range oi.Problems {
+							if p == msg {
+								dup = true
+							}
+						}
+						if !dup {
+							oi.Problems = append(oi.Problems, msg)
+						}
+					}
+				}
+			}
+		}
+	}
 	noStore := reachFrom(clos, nil, isStore, nil) // instructions reachable from entry without passing a target store
 	allInstrs(clos, func(in ssa.Instruction) {
 		ret, ok := in.(*ssa.Return)
